@@ -49,7 +49,7 @@ REQUIRED = ["constructions", "points_multiset_checked", "mst_length_checked", "l
             "float32_clouds", "integer_clouds", "clouds_with_coincident_points", "far_clouds", "soma_given", "soma_first_point", "class_PointsToMST",
             "class_PointsToCuntzMST", "tap_call", "transform_instances_reused",
             "rejected_calls_before_construction"]
-FLOOR = {"quick": 650, "thorough": 13000}
+FLOOR = {"quick": 650, "thorough": 52000}
 SHARDS = {"quick": 8, "thorough": 16}
 TIMEOUT = {"quick": 300, "thorough": 3000}
 
@@ -311,7 +311,7 @@ def run(ctx):
     rng = ctx.rng
     tap = probes.CallTap({"call": PointsToCuntzMST.__call__})
     with tap:
-        for kk in range(ctx.scale(1100, 22000)):
+        for kk in range(ctx.scale(1100, 88000)):
             u = rng.random()
             n = int(rng.integers(2, 12)) if u < 0.3 else (int(rng.integers(12, 60)) if u < 0.9
                                                          else int(rng.integers(60, 300)))
